@@ -9,8 +9,8 @@
     (a decoder inverts it and its output is never empty) — that part is validated on every run by
     the standard decoders of flate2 / brotli / zstd, not proved (partial).
 
-    The model describes kvarn after the repairs 7270dfd (OWS in list_header), 46abfcf / fb022d9 / 1fc432a
-    (refusal of identity: under the floor and for opted-out handlers, "*;q=0", any case) and ec0a225 (memo
+    The model describes kvarn after the repairs 7270dfd (OWS in list_header), 0cd8927 / cb78127 / 644c245
+    (refusal of identity: under the floor and for opted-out handlers, "*;q=0", any case) and 37d7eb3 (memo
     cells written once across threads); what each repaired is kept as a [_v0_refuted] theorem. *)
 From KV Require Import Bytes RustInt Range Negotiate NegotiateProofs ListHeaderProofs.
 Open Scope N_scope.
@@ -179,7 +179,7 @@ End C06.
 (** The memo cell ([tokio::sync::OnceCell<Bytes>], [get_or_init]: fast-path check; take the permit; compress;
     store and give the permit up; read) under every interleaving of n tasks inside the same [get_x], from an
     empty or a filled cell: the cell only ever holds a value satisfying P (instantiate P b := b = enc a level
-    body), and every task that has returned returned such a value — never a panic.  (Before fix ec0a225: an
+    body), and every task that has returned returned such a value — never a panic.  (Before fix 37d7eb3: an
     [UnsafeCell] with a separate check and write, see [memo_double_write_v0_refuted].) *)
 Theorem memo_invariant : forall (P : bytes -> Prop) (vals : list bytes) (n : nat) (cell : option bytes) (sched : list nat),
   (forall i, (i < n)%nat -> P (nth i vals [])) -> (forall b, cell = Some b -> P b) ->
@@ -236,7 +236,7 @@ Definition opts (p : pref) : options := mkOptions p 4 4 2.
 Notation clone_v := (clone_preferred_gen parse_q_dec parse_mime_std enc_tag).
 Notation values_std := (header_values parse_q_dec).
 
-(** a 49-byte body (under the floor): fix 46abfcf *)
+(** a 49-byte body (under the floor): fix 0cd8927 *)
 Theorem identity_refusal_floor_v0_refuted :
   exists c ae o l b, disable_identity (values_std ae) = true /\
                      fst (clone_v (mkFixes false true true) c ae o) = Sent l b Identity.
@@ -249,12 +249,12 @@ Proof.
   exists (N.iter 60 (cons 97) []), (Some (B "identity;q=0")), (opts PZstd). eexists. eexists.
   split; [vm_compute; repeat constructor|]. split; vm_compute; reflexivity.
 Qed.
-(** "*;q=0": fix fb022d9 *)
+(** "*;q=0": fix cb78127 *)
 Theorem identity_refusal_star_v0_refuted :
   exists c ae o l b, disable_identity (values_std ae) = true /\
                      fst (clone_v (mkFixes true false true) c ae o) = Sent l b Identity.
 Proof. exists (html 60), (Some (B "*;q=0")), (opts PZstd). eexists. eexists. split; vm_compute; reflexivity. Qed.
-(** "Identity;q=0": fix 1fc432a *)
+(** "Identity;q=0": fix 644c245 *)
 Theorem identity_refusal_case_v0_refuted :
   exists c ae o l b, disable_identity (values_std ae) = true /\
                      fst (clone_v (mkFixes true true false) c ae o) = Sent l b Identity.
